@@ -143,6 +143,8 @@ def obs(sql, dialect):
 
 def _eval(task):
     seed_id, sql, dialect, variants = task[:4]
+    no_mblock = variants.endswith("-nomblock")  # thorough: seeds beyond the quick selection keep the rewrite kinds of the earlier rounds
+    variants = variants.replace("-nomblock", "")
     analyzer = task[4] if len(task) > 4 else dialect  # the tokens are sqlfluff's under `dialect`; the analysis may be the legacy analyzer's
     toks = lex(sql, dialect)
     if toks is None:
@@ -153,6 +155,8 @@ def _eval(task):
     all_sites = sites(toks, dialect)
     if analyzer == LEGACY:
         all_sites = [x for x in all_sites if x[0] in LEGACY_KINDS]
+    if no_mblock:
+        all_sites = [x for x in all_sites if x[0] != "mblock"]
     plan = []
     if variants == "single+all" or variants == "pairs":
         # single-site "\n" / "\t" re-layouts are explored for the sqlparse-based analyzer; under sqlfluff they add nothing to
@@ -163,7 +167,7 @@ def _eval(task):
         if len(ss) > 1:
             plan.append(ss)
     if variants == "pairs":
-        plan += [list(p) for p in itertools.combinations(all_sites, 2) if p[0][1] != p[1][1] or {p[0][0], p[1][0]} <= {"blank", "block", "mblock", "line", "kwupper", "idupper", "quote", "nl"} and p[0][0] != p[1][0]]
+        plan += [list(p) for p in itertools.combinations(all_sites, 2) if "mblock" not in (p[0][0], p[1][0]) and (p[0][1] != p[1][1] or {p[0][0], p[1][0]} <= {"blank", "block", "mblock", "line", "kwupper", "idupper", "quote", "nl"} and p[0][0] != p[1][0])]
     out = []
     n = skipped = 0
     inner_texts = set()
@@ -230,7 +234,7 @@ def seeds_for(tier):
     C = sqlgen.CENTRES
     plan = [("simple", C["simple"], 1), ("join", C["join"], 1), ("derived", C["derived"], 0), ("cte", C["cte"], 0), ("tables", sqlgen.TABLE_PROFILE, 1)]
     if tier != "quick":
-        plan = [("simple", C["simple"], 2), ("join", C["join"], 1), ("derived", C["derived"], 1), ("cte", C["cte"], 1), ("tables", sqlgen.TABLE_PROFILE, 2)]
+        plan = [("simple", C["simple"], 2), ("join", C["join"], 1), ("derived", C["derived"], 1), ("cte", C["cte"], 1), ("tables", sqlgen.TABLE_PROFILE_R3, 2), ("tables", sqlgen.TABLE_PROFILE, 1)]
     for sql, (st, trace, ndev, centre) in enumerate_plan(plan, 2)[0]:
         if st["kind"] == "select_into" or "item:pgcast" in sqlgen.features(st):
             out.append(("gen:" + centre, sqlgen.render(st, sqlgen.R(dialect="postgres")), "postgres", "single+all"))
@@ -258,6 +262,13 @@ def run(tier: str, opts: dict) -> int:
         seeds = [(a, b, c, "pairs") if (a, b, c, d) in short else (a, b, c, d) for a, b, c, d in seeds]
     # the same seeds under the sqlparse-based analyzer (ansi-lexed seeds; generated seeds always, corpus seeds in thorough)
     seeds += [(a, b, c, "single+all" if d == "pairs" else d, LEGACY) for a, b, c, d in seeds if c == "ansi" and (tier != "quick" or a.startswith(("gen:", "extra:")))]
+    if tier != "quick":
+        # the multi-line block comment rewrite (fourth round) is applied to the seeds of the quick selection; the other seeds keep the earlier kinds
+        qs = seeds_for("quick")
+        quick_keys = {(a, b, c): d for a, b, c, d in qs}
+        quick_keys.update({(a, b, c, LEGACY): d for a, b, c, d in qs if c == "ansi" and a.startswith(("gen:", "extra:"))})
+        keep = lambda t: quick_keys.get(t[:3] + t[4:5]) in ("single+all", t[3])  # noqa: E731 - the quick tier ran at least these variants of the seed
+        seeds = [t if keep(t) else (t[0], t[1], t[2], t[3] + "-nomblock") + t[4:] for t in seeds]
     res = pmap(_eval, seeds, chunk=1)
     regen = opts.get("regen_pins")
     new_pins = {}
